@@ -45,6 +45,9 @@ pub fn disclosed_items(id: &str, dm: &IndexMap<String, ClaimData>) -> Vec<(Vec<u
         v.push((b"disclosed message label".to_vec(), label.as_bytes().to_vec()));
         v.push((b"disclosed message index".to_vec(), Uint::from(i).to_vec()));
         v.push((b"disclosed message value".to_vec(), claim.to_bytes()));
+        if let ClaimData::Hashed(h) = claim {
+            v.push((b"disclosed message print friendly".to_vec(), vec![h.print_friendly as u8]));
+        }
         v.push((b"disclosed message scalar".to_vec(), claim.to_scalar().to_be_bytes().to_vec()));
     }
     v
